@@ -6,6 +6,36 @@ import os
 ROOT = os.path.dirname(os.path.dirname(os.path.abspath(__file__)))
 
 CHECKS = {
+    "C01": dict(category="exploration",
+        technique="trace validation against TLA+ spec Observe.tla (observers recon / libaom / SVT decoder must agree per display position) over a configuration x content corpus; reader-side validity from Bitstream.tla",
+        text="Sample fidelity cannot be modelled; the specification states that all observers of picture k agree and the check decides it by digest equality between the encoder's recon output, an independent decoder (libaom 3.6.0 runtime library) and the repository's decoder for every picture of every run.",
+        note="Sampled configurations/contents; libaom used through a hand-declared ABI (version-checked at run time); digests over visible samples.",
+        design="3.8, 4 (C01)"),
+    "C02": dict(category="model_checking",
+        technique="TLA+ spec Bitstream.tla (reader-side temporal-unit grammar, sizes, sequence-header identity, picture type) validated on every packet via the independent parser tools/av1obu.py; temporal-unit assembly design model-checked in Packetize.tla and bound by PacketizeTrace",
+        text="The grammar clauses are invariants of a reader state machine evaluated on every packet of every recorded stream; the assembly of temporal units (one shown frame, last in the unit, show-existing as separate packet) is model-checked exhaustively for all N<=18 x levels 0..3 x completion orders with small reorder depth.",
+        note="Parser is trusted (written from the AV1 spec, cross-checked by two decoders accepting the same streams); corpus sampled.",
+        design="3.5, 4 (C02)"),
+    "C03": dict(category="model_checking",
+        technique="TLA+ specs Session.tla (API-visible protocol), Bitstream.tla (display order/count), Observe.tla (independent decoder yields N pictures) validated on real runs; Packetize.tla model-checked (all completion orders) and bound to the code by PacketizeTrace.tla",
+        text="Packet count/order/pts/dts/private pointer/EOS placement/recon count are guards of Session.tla evaluated on every API event of runs sweeping stream lengths around every mini-GOP boundary, hierarchical levels 0..5, intra periods, refresh types, overlays, look-ahead, pts patterns and retrieval policies; the GOP/temporal-unit design is exhaustively explored in Packetize.tla and the real encoder's packet structure must be a behaviour of it.",
+        note="Stream lengths sampled (quick up to 40, thorough up to 600); end of stream as separate picture-less submission.",
+        design="3.3-3.5, 4 (C03)"),
+    "C04": dict(category="model_checking",
+        technique="TLC on Packetize.tla / SRMMC / EncDecSegMC (all interleavings of the synchronisation skeleton) + trace validation against Observe.tla of the same encode under seeded schedule perturbation of every lock/semaphore operation",
+        text="The design-level determinism (same delivered sequence for every completion order; exactly-once hand-off) is model-checked; byte identity of the real encoder under schedule variation is decided by Observe.tla over perturbed runs, each under a timeout (termination).",
+        note="Real schedules are sampled, not enumerated.",
+        design="4 (C04)"),
+    "C05": dict(category="model_checking",
+        technique="TLC on EncDecSegMC (inputs of every superblock complete for every segment grid) + trace validation against Observe.tla with logical_processors/unpin/target_socket as environment",
+        text="Model: DepsRespected for every grid; code: identical packets and recon across lp in {1,2,3,4,8,16,...}, pinning and socket settings.",
+        note="pic_based_rate_est (documented lp-1 only) excluded.",
+        design="4 (C05)"),
+    "C06": dict(category="exploration",
+        technique="trace validation against TLA+ spec Observe.tla with use_cpu_flags as environment (C, SSE2, SSSE3, SSE4.1, AVX2, ALL), one process per level",
+        text="The specification only states that the instruction set is not part of the key; equality of packets and recon across levels is decided per run.",
+        note="Kernel divergences are seen only if they change the output of these inputs; AVX-512 needs a build with ENABLE_AVX512.",
+        design="4 (C06)"),
     "C23": dict(
         category="model_checking",
         technique="TLA+ spec SRM.tla: TLC exhaustive (SRMMC, safety + liveness under fairness) + trace validation (SRMTrace) of the hooked real SRM under a perturbed stress driver and on every SRM instance of real encodes",
